@@ -6,6 +6,6 @@ From Jawk Require Gen.MainWiring.
 (* main: rows to stdout, diagnostics to stderr, failure = message on stderr and a non-zero exit status *)
 Lemma main_wiring_ok :
   Gen.MainWiring.rows_stream = 1 /\ Gen.MainWiring.diagnostics_stream = 2 /\
-  Gen.MainWiring.error_message_to_stderr_and_exit_code = Some (-1)%Z.
+  Gen.MainWiring.error_message_to_stderr_and_exit_status = Some 255%Z.
 Proof. repeat split; reflexivity. Qed.
 
